@@ -147,6 +147,31 @@ fn main() {
 	if args.first().map(|s| s.as_str()) == Some("mapped") {
 		std::panic::set_hook(Box::new(|_| {}));
 	}
+	if args.first().map(|s| s.as_str()) == Some("canon") {
+		// `canon JSON`: canonicalize() once and twice on the real parsed value (compact texts), and whether every
+		// object's index answers for each of its keys with exactly the positions of that key
+		use json_syntax::{Parse, Print, Value};
+		fn index_ok(v: &Value) -> bool {
+			match v {
+				Value::Array(a) => a.iter().all(index_ok),
+				Value::Object(o) => {
+					o.entries().iter().all(|e| {
+						let want: Vec<usize> = o.entries().iter().enumerate().filter(|(_, f)| f.key == e.key).map(|(i, _)| i).collect();
+						let got: Vec<usize> = o.get_entries_with_index(e.key.as_str()).map(|(i, _)| i).collect();
+						got == want
+					}) && o.entries().iter().all(|e| index_ok(&e.value))
+				}
+				_ => true,
+			}
+		}
+		let (mut v, _) = Value::parse_str(&args[1]).unwrap();
+		v.canonicalize();
+		let first = v.compact_print().to_string();
+		let idx = index_ok(&v);
+		v.canonicalize();
+		println!("{}\t{}\t{}", first, v.compact_print(), if idx { "index-ok" } else { "index-stale" });
+		return;
+	}
 	if args.first().map(|s| s.as_str()) == Some("unordn") {
 		// `unordn JSON JSON`: unordered_eq(A, B) and unordered_eq(B, A) on the real parsed values
 		use json_syntax::{Parse, UnorderedPartialEq, Value};
